@@ -304,6 +304,28 @@ def run_history(c):
             g4 = make_manager(cfg)
             g4.find_design()
             variants["after_other_design"] = result_key(g4, os.path.join(tmp, "v5"))
+        # 5b. earlier in the same process, the SAME fields, heights and flow with other thermal properties (grout, pipe conductivity)
+        sim = json.loads(json.dumps(cfg))
+        sim["grout"]["conductivity"] = cfg["grout"]["conductivity"] * 2.0
+        for kk in ("conductivity", "conductivity_inner", "conductivity_outer"):
+            if kk in sim["pipe"]:
+                sim["pipe"][kk] = sim["pipe"][kk] * 1.5
+        gs = make_manager(sim)
+        try:
+            gs.find_design()
+        except ValueError:
+            pass
+        g4b = make_manager(cfg)
+        g4b.find_design()
+        variants["after_similar_design_other_grout"] = result_key(g4b, os.path.join(tmp, "v5b"))
+        # 5c. an input corrected after set_design, then set_design again with the same flow (soil conductivity first entered wrongly)
+        wrong = json.loads(json.dumps(cfg))
+        wrong["soil"]["conductivity"] = cfg["soil"]["conductivity"] * 0.6
+        g4c = make_manager(wrong)
+        g4c.set_soil(**cfg["soil"])
+        g4c.set_design(flow_rate=cfg["design"]["flow_rate"], flow_type_str=cfg["design"]["flow_type"])
+        g4c.find_design()
+        variants["input_corrected_then_set_design_again"] = result_key(g4c, os.path.join(tmp, "v5c"))
         # 6. set_design called twice, find_design after re-setting the design
         g5 = make_manager(cfg)
         g5.set_design(flow_rate=cfg["design"]["flow_rate"], flow_type_str=cfg["design"]["flow_type"])
